@@ -505,19 +505,21 @@ EXPORT int _towfc_s_chk(wchar_t *restrict dest, rsize_t dmax, const uint32_t src
                                            NULL, ESNULLP);
         return -(ESNULLP);
     }
-    if (unlikely(dmax < 4)) {
-        invoke_safe_str_constraint_handler("towfc_s: "
-                                           "dmax is < 4",
-                                           (void *)dest, ESLEMIN);
-        return -(ESLEMIN);
-    }
-    dest[0] = L'\0';
     if (unlikely(dmax > RSIZE_MAX_WSTR)) {
         invoke_safe_str_constraint_handler("towfc_s: "
                                            "dmax exceeds max",
                                            (void *)dest, ESLEMAX);
         return -(ESLEMAX);
     }
+    if (unlikely(dmax < 4)) {
+        if (dmax && (destbos == BOS_UNKNOWN || destsz <= destbos))
+            dest[0] = L'\0';
+        invoke_safe_str_constraint_handler("towfc_s: "
+                                           "dmax is < 4",
+                                           (void *)dest, ESLEMIN);
+        return -(ESLEMIN);
+    }
+    dest[0] = L'\0';
     if (destbos == BOS_UNKNOWN) {
         BND_CHK_PTR_BOUNDS(dest, destsz);
     } else {
